@@ -180,6 +180,67 @@ fn check_vocab(ctx: &Ctx, words: &[Vec<u8>], dfas: &[Dfa], starts: &[Vec<u8>], s
             return Err(viol("has_extensions", json!({"bytes": show(&s), "expected": exp_ext})));
         }
     }
+    // navigation API against scans of the word list (ids are compared through their bytes: with
+    // duplicate entries any of the equal tokens is a right answer)
+    let bytes_of = |ids: &[u32]| -> std::collections::BTreeSet<Vec<u8>> { ids.iter().map(|t| trie.token(*t).to_vec()).collect() };
+    for s in strings_upto(b"ab", 4) {
+        if s.is_empty() {
+            continue;
+        }
+        st.walks += 1;
+        let at = guarded(|| trie.token_id_at_bytes(&s)).map_err(|e| viol("token_id_at_bytes_panic", json!({"panic": e})))?;
+        let present = words.iter().any(|w| *w == s);
+        if at.is_some() != present || at.map_or(false, |t| trie.token(t) != s.as_slice()) {
+            return Err(viol("token_id_at_bytes", json!({"bytes": show(&s), "got": at, "present": present})));
+        }
+        let (ptok, plen) = guarded(|| trie.prefix_token_id(&s)).map_err(|e| viol("prefix_token_id_panic", json!({"panic": e})))?;
+        let exp_len = (1..=s.len()).rev().find(|l| words.iter().any(|w| w.as_slice() == &s[..*l])).unwrap_or(0);
+        if plen != exp_len || (plen > 0 && trie.token(ptok) != &s[..plen]) {
+            return Err(viol("prefix_token_id", json!({"bytes": show(&s), "got": [ptok as usize, plen], "expected_len": exp_len})));
+        }
+        let pref = guarded(|| trie.all_prefixes(&s)).map_err(|e| viol("all_prefixes_panic", json!({"panic": e})))?;
+        let exp_pref: std::collections::BTreeSet<Vec<u8>> = words.iter().filter(|w| !w.is_empty() && s.starts_with(w)).cloned().collect();
+        if bytes_of(&pref) != exp_pref {
+            return Err(viol("all_prefixes", json!({"bytes": show(&s), "got": pref, "expected": exp_pref.iter().map(|w| show(w)).collect::<Vec<_>>()})));
+        }
+        let sub = guarded(|| trie.all_subtokens(&s)).map_err(|e| viol("all_subtokens_panic", json!({"panic": e})))?;
+        let exp_sub: std::collections::BTreeSet<Vec<u8>> = words.iter().filter(|w| !w.is_empty() && s.windows(w.len()).any(|x| x == w.as_slice())).cloned().collect();
+        if bytes_of(&sub) != exp_sub {
+            return Err(viol("all_subtokens", json!({"bytes": show(&s), "got": sub, "expected": exp_sub.iter().map(|w| show(w)).collect::<Vec<_>>()})));
+        }
+    }
+    {
+        let sorted = guarded(|| trie.sorted_tokens()).map_err(|e| viol("sorted_tokens_panic", json!({"panic": e})))?;
+        let got: std::collections::BTreeSet<Vec<u8>> = sorted.iter().map(|(_, b)| b.clone()).collect();
+        let exp: std::collections::BTreeSet<Vec<u8>> = words.iter().filter(|w| !w.is_empty()).cloned().collect();
+        if got != exp || sorted.iter().any(|(t, b)| trie.token(*t) != b.as_slice()) {
+            return Err(viol("sorted_tokens", json!({"got": sorted.iter().map(|(t, b)| (*t, show(b))).collect::<Vec<_>>()})));
+        }
+        let exp_special: std::collections::BTreeSet<u32> = (0..words.len() as u32).filter(|t| words[*t as usize].first() == Some(&0xFF)).collect();
+        // (get_special_tokens requires at least one token under the marker byte)
+        let got_special: std::collections::BTreeSet<Vec<u8>> = if exp_special.is_empty() { Default::default() } else { guarded(|| trie.get_special_tokens()).map_err(|e| viol("get_special_tokens_panic", json!({"panic": e})))?.iter().map(|t| trie.token(*t).to_vec()).collect() };
+        let exp_special_b: std::collections::BTreeSet<Vec<u8>> = exp_special.iter().map(|t| words[*t as usize].clone()).filter(|w| w.len() > 1).collect();
+        if got_special != exp_special_b {
+            return Err(viol("get_special_tokens", json!({"got": got_special.iter().map(|w| show(w)).collect::<Vec<_>>()})));
+        }
+        // singleton / eos sets stay below the vocabulary size
+        for t in 0..words.len() as u32 {
+            let sset = trie.singleton_token_set(t);
+            if sset.iter().collect::<Vec<u32>>() != vec![t] {
+                return Err(viol("singleton_token_set", json!({"token": t})));
+            }
+        }
+        if trie.eos_token_set().iter().any(|t| t as usize >= words.len()) {
+            return Err(viol("eos_token_set_above_vocab", json!({})));
+        }
+        // changing the EOS token changes nothing else
+        if !words.is_empty() {
+            let t2 = guarded(|| trie.with_eos_token(0)).map_err(|e| viol("with_eos_token_panic", json!({"panic": e})))?;
+            if t2.eos_token() != 0 || (0..words.len() as u32).any(|t| t2.token(t) != trie.token(t)) || t2.vocab_size() != trie.vocab_size() {
+                return Err(viol("with_eos_token", json!({})));
+            }
+        }
+    }
     // filters: every subset when <= 3 words, else a few
     let n = words.len();
     let mut filters: Vec<Option<Vec<bool>>> = vec![None];
@@ -869,6 +930,6 @@ pub fn run(ctx: &Ctx) -> Coverage {
         ctx.machinery_error("vacuous run");
     }
     Coverage::StateGraph {
-        rule: "(a) every vocabulary of <= 3 (thorough: 4) entries over the 15 strings of length <= 3 on {a,b} (duplicates, empty entries, prefixes), every filter subset, every partial DFA with <= 2 (thorough: 3) states over {a,b}, every start prefix of length <= 2: token/bytes round trip, token_id, has_extensions, greedy round trip, add_bias and has_valid_extensions vs per-token test; plus stress shapes (300-byte chain, 255-way fan-out, 1024-byte token, marker tokens); (b) every SimpleVob operation sequence of length <= 3 over 11 operation kinds with word-boundary arguments on sizes {0,1,31,32,33,63,64,65,100} x spare capacity {0, 1, 33} bits (alloc vs alloc_with_capacity as in alloc_token_set), every observer compared with a BTreeSet model after every step; (c) byte-level and byte-fallback tokenizer.json descriptions and tiktoken rank tables built in memory: token bytes vs independent decoding, and tokenise/concatenate round trip for every byte string of length <= 4 over {a, b, space, C3, A9, 80}; states = vocabularies + op sequences, transitions = trie walks + set operations".into(),
+        rule: "(a) every vocabulary of <= 3 (thorough: 4) entries over the 15 strings of length <= 3 on {a,b} (duplicates, empty entries, prefixes), every filter subset, every partial DFA with <= 2 (thorough: 3) states over {a,b}, every start prefix of length <= 2: token/bytes round trip, token_id, token_id_at_bytes, prefix_token_id, all_prefixes, all_subtokens (every string of length <= 4), sorted_tokens, get_special_tokens, singleton/eos sets, with_eos_token, has_extensions, greedy round trip, add_bias and has_valid_extensions vs per-token test; plus stress shapes (300-byte chain, 255-way fan-out, 1024-byte token, marker tokens); (b) every SimpleVob operation sequence of length <= 3 over 11 operation kinds with word-boundary arguments on sizes {0,1,31,32,33,63,64,65,100} x spare capacity {0, 1, 33} bits (alloc vs alloc_with_capacity as in alloc_token_set), every observer compared with a BTreeSet model after every step; (c) byte-level and byte-fallback tokenizer.json descriptions and tiktoken rank tables built in memory: token bytes vs independent decoding, and tokenise/concatenate round trip for every byte string of length <= 4 over {a, b, space, C3, A9, 80}; states = vocabularies + op sequences, transitions = trie walks + set operations".into(),
     }
 }
